@@ -784,20 +784,27 @@ def tokenize(content: str, lenient: bool = False) -> tuple[list[Token], list[Any
         if fence_span_idx < len(fence_spans) and pos == fence_spans[fence_span_idx][0]:
             span_start, span_end, marker, tag = fence_spans[fence_span_idx]
 
-            # Emit FENCE_OPEN token
-            tokens.append(
-                Token(
-                    TokenType.FENCE_OPEN,
-                    {"fence_marker": marker, "info_tag": tag},
-                    line,
-                    column,
-                )
-            )
-
             # Find content boundaries within the span
             # content_start: position after the first newline (end of opening fence line)
             # content_end: position of the last newline before closing fence line
             first_newline = content.index("\n", span_start)
+
+            # Emit FENCE_OPEN token. The span starts at the beginning of the fence LINE, so no
+            # INDENT token precedes it; the fence line's own indentation is carried in the
+            # token so the parser can decide which block a bare literal zone belongs to.
+            fence_line = content[span_start:first_newline]
+            tokens.append(
+                Token(
+                    TokenType.FENCE_OPEN,
+                    {
+                        "fence_marker": marker,
+                        "info_tag": tag,
+                        "indent": len(fence_line) - len(fence_line.lstrip(" ")),
+                    },
+                    line,
+                    column,
+                )
+            )
             content_start = first_newline + 1
 
             # Find the start of the closing fence line
